@@ -63,7 +63,7 @@ def handler(c):
         cut = c['cut_day']
         trunc = dict((a, [r for r in rows if r[0] <= cut]) for a, rows in c['assets'].items())
         rew = dict((a, [r if r[0] <= cut else [r[0]] + [None if v is None else v * 3.0 + 1.0 for v in r[1:]] for r in rows] +
-                        [[cut + 400 + k, 1.0, 2.0, 3.0] for k in range(2)])
+                        [[max([cut] + [r[0] for r in rows]) + 400 + k, 1.0, 2.0, 3.0] for k in range(2)])
                    for a, rows in c['assets'].items())
         qs = [q for q in c['queries'] if q[1] // 86400 <= cut]
         res['early_queries'] = qs
